@@ -554,8 +554,10 @@ func decodeKey(seq []rune, pos, end int) (string, int, error) {
 	// seek end of sequence
 	start := pos
 
-	for c := grab(seq, pos+1, end); pos < end && c != ':' && c != '#' && !unicode.IsSpace(c) && !unicode.IsControl(c); pos++ {
-		c = grab(seq, pos+1, end)
+	for ; pos < end; pos++ {
+		if c := seq[pos]; c == ':' || c == '#' || unicode.IsSpace(c) || unicode.IsControl(c) {
+			break
+		}
 	}
 
 	val := strings.ToLower(string(seq[start:pos]))
